@@ -21,7 +21,7 @@ ZoomOk(z) == 0 <= z /\ z <= 35
 ListIsSet(r, S) == DupFree(r) /\ SetOfSeq(r) = S
 
 MachineOps == {"M.Reset", "M.ChangeZoom", "M.Merge", "M.Shift", "M.NLayer", "M.Lookup",
-               "M.Overlap", "M.Reparse", "M.KeyRoundTrip"}
+               "M.Overlap", "M.Reparse", "M.KeyRoundTrip", "M.Expand", "M.Higher", "M.Around", "M.SpRoundTrip"}
 
 Ok(e) == e.o = "ok"
 Err(e) == e.o = "err"
@@ -578,11 +578,16 @@ MachineNext(e, ws) ==          \* the specification's action
     [] e.op = "M.Shift"       -> {Shift(s, e.a.dx, e.a.dy, e.a.dv, e.w.abs) : s \in ws}
     [] e.op = "M.NLayer"      -> NLayer(ws, e.a.hl, e.a.vl, e.w.abs)
     [] e.op = "M.Lookup"      -> ws \cup {PointToVoxel(e.a.p, e.a.h, e.a.v, e.w.abs)}
-    [] e.op \in {"M.Overlap", "M.Reparse", "M.KeyRoundTrip"} -> ws      \* queries / round trips leave it unchanged
+    [] e.op = "M.Expand"      -> UNION {{SpToExt(t) : t \in ExpandImpl(s)} : s \in ws}   \* to single-zoom IDs and back to extended form
+    [] e.op = "M.Higher"      -> {Higher(s, MinOf(e.a.dh, s[1]), MinOf(e.a.dv, s[4])) : s \in ws}
+    [] e.op = "M.Around"      -> ws \cup SetOfSeq(IF e.a.k = 6 THEN N6(e.a.c, e.w.abs)
+                                                  ELSE IF e.a.k = 8 THEN N8(e.a.c, e.w.abs) ELSE N26(e.a.c, e.w.abs))
+    [] e.op \in {"M.Overlap", "M.Reparse", "M.KeyRoundTrip", "M.SpRoundTrip"} -> ws      \* queries / round trips leave it unchanged
 MachineExplains(e, ws) ==
   /\ e.bad = "" /\ Ok(e)
   /\ SetOfSeq(e.a.ws) = MachineNext(e, ws)
   /\ (e.op \in {"M.ChangeZoom", "M.Merge", "M.NLayer"} => e.a.n = Cardinality(MachineNext(e, ws)))  \* returned without duplicates
   /\ (e.op = "M.Overlap" => e.r = <<OverlapArr(ws, {e.a.b})>>)
   /\ (e.op = "M.Lookup" => LatDecided(e.a.p, e.a.h))
+  /\ (e.op = "M.Around" => e.a.c \in ws)
 =============================================================================
